@@ -112,6 +112,7 @@ func minOf(q ssa.Value) (a, m ssa.Value, ok bool) {
 
 func runC09(c *Ctx) {
 	slowPathStateFresh(c, "S1-per-packet-state")
+	checksumFoldLossless(c, "F1-checksum-fold-lossless")
 	v := c.View(spT + ".prepareSCMP")
 	if v == nil {
 		return
